@@ -692,7 +692,15 @@ func (r *rewriter) exprs(n ast.Node) {
 			return false
 		case *ast.UnaryExpr:
 			if m.Op == token.ARROW && !r.mapOnly {
-				r.errf(m.Pos(), "channel receive in unsupported expression position")
+				// a receive nested in a larger expression: the operand is routed through a generic
+				// helper that is the scheduling point and hands the channel back for the native receive
+				if c, ok := m.X.(*ast.CallExpr); ok {
+					if sel, ok := c.Fun.(*ast.SelectorExpr); ok && sel.Sel.Name == "RecvCh" {
+						return true
+					}
+				}
+				m.X = call(vrtSel("RecvCh"), r.site(m.Pos()), m.X)
+				r.bump("recv-in-expression")
 			}
 		}
 		return true
